@@ -801,8 +801,14 @@ else:
             self.start()
             return self
 
-        def __exit__(self, *args, **kwargs) -> None:
+        def __exit__(self, exc_type=None, *args, **kwargs) -> None:
+            if exc_type is not None:
+                # reading or processing failed, the writer would wait forever for
+                # the end of the queue: abort it without finalising the cache
+                self.process.terminate()
             self.join()
+            if exc_type is None and self.process.exitcode != 0:
+                raise RuntimeError("writing patch data failed, see writer error above")
 
         def task(self) -> None:
             with CatalogWriter(
